@@ -20,6 +20,7 @@ samples), the intersection found by `bisect` on the interpolants and the array s
 agreement of the two public solvers is checked by the oracle `o_riemann.ig_vs_gen`.
 -/
 import EPV.Lemmas.Riemann
+import EPV.Lemmas.Bridge.RiemannGen
 import EPV.Gen.RiemShockJumpIG
 import EPV.Gen.RiemStarVelIG
 import EPV.Gen.RiemOdeIG
@@ -45,7 +46,7 @@ theorem hugoniot_root_partial {px p ρ γ r : ℝ} (hp : 0 < p) (hρ : 0 < ρ) (
   have hD : 0 < px * g + p * (g + 2) := by positivity
   have hd : r - ρ ≠ 0 := sub_ne_zero.mpr hne
   have e : shockJump px p ρ (1 + g) r = (r * (px * g + p * (g + 2)) - ρ * (p * g + px * (g + 2))) / (2 * g * ρ * r) := by
-    simp only [shockJump, epv_tree, epv_leaf]
+    simp only [shockJump, Bridge.Riem.shockJumpIG_eq, Bridge.Riem.jumpForm]
     have e1 : (1 + g - 1) = g := by ring
     rw [e1]; field_simp; ring
   rw [e, rhoShock_eq, div_eq_zero_iff]
@@ -109,6 +110,12 @@ theorem star_speeds {px p ρ γ : ℝ} (hp : 0 < p) (hρ : 0 < ρ) (hγ : 1 < γ
 noncomputable def starArgs (q : Prob) (px p ρ u γ : ℝ) : RiemStarVelIG.P :=
   { pk := p, rk := ρ, uk := u, pz := px, rz := rhoShock px p ρ γ, pl := q.pl, rl := q.rl, ul := q.ul }
 
+/-- the sign of `shock_speed`/`star_velocity` (-1 on the left state) is opposite to the fan's -/
+private theorem sideSgn_fanSgn (q : Prob) (p ρ u : ℝ) :
+    Bridge.Riem.sideSgn p ρ u q.pl q.rl q.ul = -fanSgn q p ρ u := by
+  unfold Bridge.Riem.sideSgn fanSgn
+  by_cases h0 : p = q.pl <;> by_cases h1 : ρ = q.rl <;> by_cases h2 : u = q.ul <;> simp [h0, h1, h2]
+
 /-- `star_velocity` at the Hugoniot density is the ideal-gas solver's u₀ ∓ `shock(px, p₀, ρ₀, 0, γ)`
 (- on the left state, + otherwise: the sign of the `==` side detection) -/
 theorem star_velocity_partial (q : Prob) {px p ρ u γ : ℝ} (hp : 0 < p) (hρ : 0 < ρ) (hγ : 1 < γ) (hpx : p < px) :
@@ -128,30 +135,11 @@ theorem star_velocity_partial (q : Prob) {px p ρ u γ : ℝ} (hp : 0 < p) (hρ 
     rw [hr]; field_simp
     nlinarith [hm2]
   rw [shock_mflux hρ (by linarith) hN, ← key, ← w0, ← w1]
-  by_cases h0 : p = q.pl
-  · by_cases h1 : ρ = q.rl
-    · by_cases h2 : u = q.ul
-      · have c0 : RiemStarVelIG.c0 (starArgs q px p ρ u γ) := h0
-        have c1 : RiemStarVelIG.c1 (starArgs q px p ρ u γ) := h1
-        have c2 : RiemStarVelIG.c2 (starArgs q px p ρ u γ) := h2
-        have hs : fanSgn q p ρ u = 1 := by simp [fanSgn, h0, h1, h2]
-        simp only [epv_tree, if_pos c0, if_pos c1, if_pos c2]
-        simp only [epv_leaf, starArgs, hs]; ring
-      · have c0 : RiemStarVelIG.c0 (starArgs q px p ρ u γ) := h0
-        have c1 : RiemStarVelIG.c1 (starArgs q px p ρ u γ) := h1
-        have c2 : ¬ RiemStarVelIG.c2 (starArgs q px p ρ u γ) := h2
-        have hs : fanSgn q p ρ u = -1 := by simp [fanSgn, h0, h1, h2]
-        simp only [epv_tree, if_pos c0, if_pos c1, if_neg c2]
-        simp only [epv_leaf, starArgs, hs]; ring
-    · have c0 : RiemStarVelIG.c0 (starArgs q px p ρ u γ) := h0
-      have c1 : ¬ RiemStarVelIG.c1 (starArgs q px p ρ u γ) := h1
-      have hs : fanSgn q p ρ u = -1 := by simp [fanSgn, h0, h1]
-      simp only [epv_tree, if_pos c0, if_neg c1]
-      simp only [epv_leaf, starArgs, hs]; ring
-  · have c0 : ¬ RiemStarVelIG.c0 (starArgs q px p ρ u γ) := h0
-    have hs : fanSgn q p ρ u = -1 := by simp [fanSgn, h0]
-    simp only [epv_tree, if_neg c0]
-    simp only [epv_leaf, starArgs, hs]; ring
+  -- shape-independent: `star_velocity` through its bridge (`EPV.Lemmas.Bridge.RiemannGen`), whatever the
+  -- order of the `==` tests and the way the sign is applied
+  rw [Bridge.Riem.starVelIG_eq]
+  simp only [starArgs, Bridge.Riem.relSpeed]
+  rw [sideSgn_fanSgn]; ring
 
 theorem starvel_leaves : RiemStarVelIG.okLeaves = [0, 1, 2, 3] := rfl
 
@@ -162,20 +150,23 @@ theorem starvel_leaves : RiemStarVelIG.okLeaves = [0, 1, 2, 3] := rfl
 noncomputable def odeArgs (px p ρ γ ws : ℝ) : RiemOdeIG.P :=
   { pz := px, rz := rhoRare px p ρ γ, gk := γ, ws := ws }
 
-/-- dρ/dp = 1/a² along the closed-form isentrope (generated certificate of `rho_star_rarefaction`),
+/-- dρ/dp = 1/a² along the closed-form isentrope (derivative of the documented `rho_star_rarefaction`, `rhoRare_eq`),
 and ρ(p₀) = ρ₀ -/
 theorem rarefaction_ode_density_partial {px p ρ γ : ℝ} (hp : 0 < p) (hρ : 0 < ρ) (hγ : 1 < γ) (hpx : 0 < px) (ws : ℝ) :
     HasDerivAt (fun x => rhoRare x p ρ γ) (RiemOdeIG.drdp (odeArgs px p ρ γ ws)) px ∧ rhoRare p p ρ γ = ρ := by
   have hz : 0 < px / p := by positivity
   have hγ0 : 0 < γ := by linarith
   constructor
-  · have cert := RiemRhoRare.L0.rho_hasDerivAt_px { pk := p, rk := ρ, gk := γ } px hz
-    have e : (fun x => rhoRare x p ρ γ) = fun x => RiemRhoRare.L0.rho { pk := p, rk := ρ, gk := γ } x := by
-      funext x; simp only [rhoRare, epv_tree]
+  · -- shape-independent: differentiate the documented closed form (`rhoRare_eq`) with the combinators the
+    -- generated certificate is built from; the ODE right-hand side through its bridge
+    have cert : HasDerivAt (fun x => ρ * (x / p) ^ (1 / γ)) (ρ * (1 / p * (1 / γ) * ((px / p) ^ (1 / γ) / (px / p)))) px :=
+      EPV.D.const_mul ρ (EPV.D.rpow_const (EPV.D.div_const (hasDerivAt_id' px) p) (1 / γ) hz)
+    have e : (fun x => rhoRare x p ρ γ) = fun x => ρ * (x / p) ^ (1 / γ) := by
+      funext x; exact rhoRare_eq x p ρ γ
     rw [e]
     refine cert.congr_deriv ?_
     have hB : 0 < (px / p) ^ (1 / γ) := Real.rpow_pos_of_pos hz _
-    simp only [odeArgs, rhoRare_eq, epv_tree, epv_leaf, epv_deriv]
+    simp only [odeArgs, Bridge.Riem.odeIG_drdp_eq, rhoRare_eq]
     rw [Real.sq_sqrt (by positivity)]
     generalize (px / p) ^ (1 / γ) = B at *
     field_simp
@@ -188,9 +179,13 @@ theorem rarefaction_ode_velocity_partial {px p ρ γ : ℝ} (u : ℝ) (hp : 0 < 
   have hz : 0 < px / p := by positivity
   have hγ0 : 0 < γ := by linarith
   constructor
-  · have cert := RiemRare.L0.du_hasDerivAt_px { pk := p, rk := ρ, uk := u, gk := γ } px hz
-    have e : (fun x => rare x p ρ u γ) = fun x => RiemRare.L0.du { pk := p, rk := ρ, uk := u, gk := γ } x := by
-      funext x; simp only [rare, epv_tree]
+  · have cert : HasDerivAt (fun x => 2 * Real.sqrt (γ * p / ρ) / (γ - 1) * (1 - (x / p) ^ ((γ - 1) / 2 / γ)) + u)
+        (2 * Real.sqrt (γ * p / ρ) / (γ - 1) * -(1 / p * ((γ - 1) / 2 / γ) * ((px / p) ^ ((γ - 1) / 2 / γ) / (px / p)))) px :=
+      EPV.D.add_const (EPV.D.const_mul (2 * Real.sqrt (γ * p / ρ) / (γ - 1))
+        (EPV.D.const_sub (1 : ℝ) (EPV.D.rpow_const (EPV.D.div_const (hasDerivAt_id' px) p) ((γ - 1) / 2 / γ) hz))) u
+    have e : (fun x => rare x p ρ u γ)
+        = fun x => 2 * Real.sqrt (γ * p / ρ) / (γ - 1) * (1 - (x / p) ^ ((γ - 1) / 2 / γ)) + u := by
+      funext x; exact rare_eq x p ρ u γ
     rw [e]
     refine cert.congr_deriv ?_
     have hs := sound_on_isentrope hp hρ hγ hpx
@@ -203,7 +198,7 @@ theorem rarefaction_ode_velocity_partial {px p ρ γ : ℝ} (u : ℝ) (hp : 0 < 
       rw [← Real.rpow_add hz, ← Real.rpow_add hz]
       have : (γ - 1) / 2 / γ + (γ - 1) / 2 / γ + 1 / γ = 1 := by field_simp; ring
       rw [this, Real.rpow_one]
-    simp only [odeArgs, epv_tree, epv_leaf, epv_deriv]
+    simp only [odeArgs, Bridge.Riem.odeIG_dudp_eq]
     rw [hs]
     simp only [rhoRare_eq]
     generalize Real.sqrt (γ * p / ρ) = a at *
@@ -223,7 +218,7 @@ theorem rarefaction_ode_velocity_right_partial {px p ρ γ : ℝ} (u : ℝ) (hp 
   have h := (rarefaction_ode_velocity_partial 0 hp hρ hγ hpx).1
   have h2 := (h.const_mul (-1 : ℝ)).const_add u
   refine h2.congr_deriv ?_
-  simp only [odeArgs, epv_tree, epv_leaf]; ring
+  simp only [odeArgs, Bridge.Riem.odeIG_dudp_eq]; ring
 
 /-- non-vacuity -/
 example : (0:ℝ) < 1 ∧ (0:ℝ) < 1 ∧ (1:ℝ) < 7/5 ∧ (0:ℝ) < 3/10 := by norm_num
